@@ -212,7 +212,14 @@ def run(ctx):
                   "GrammarBuilder::%s adds rules %s (expected %s): the admitted repetition counts change" % (fn, rules, want), site=b.where())
     rp = ctx.body(GB + "::repeat")
     calls = {k: rp.call_blocks(GB + "::" + k) for k in ("at_least", "repeat_exact", "at_most", "join")}
+    # `max` absent: `max.is_none()` is true, or the discriminant of parameter 4 is 0 (`let Some(max) = max else {..}`)
     g_none = L.guard_edges(rp, lambda e: e[0] == "call" and e[1].endswith("Option::<T>::is_none"), True)
+    for bi, e, targets, otherwise in rp.switch_edges():
+        if e[0] == "discr" and e[1][0] in ("place", "local") and (e[1][1] if e[1][0] == "local" else e[1][1][0]) == 4:
+            zero = [t for v, t in targets if v == 0]
+            if not zero and all(v != 0 for v, _ in targets):
+                zero = [otherwise]
+            g_none = list(g_none) + [(bi, t) for t in zero]
     ok = bool(calls["at_least"]) and bool(g_none) and not L.dominated_by_cut(rp, calls["at_least"], g_none)
     ctx.check(ok, "C09-R2", "repeat:none->at_least", "max == None dispatches to at_least(elt, min)", "repeat no longer maps an absent max to at_least", site=rp.where())
     if calls["at_least"]:
@@ -235,7 +242,8 @@ def run(ctx):
         te, ta = rp.blocks[gen_ex[0]]["term"], rp.blocks[gen_am[0]]["term"]
         # min is parameter 3, max is parameter 4 (unwrapped)
         rd = L.role(rp, ta["args"][2])
-        ok = L.role(rp, te["args"][2]) == "param:3" and rd.replace(" ", "").replace(").0", ")") == "(call:unwrap(param:4)Subparam:3)"
+        rdn = rd.replace(" ", "").replace(").0", ")").replace("param:4asSome.0", "call:unwrap(param:4)")
+        ok = L.role(rp, te["args"][2]) == "param:3" and rdn == "(call:unwrap(param:4)Subparam:3)"
     ctx.check(ok, "C09-R2", "repeat:general-case", "general case = repeat_exact(elt, min) ++ at_most(elt, max - min)",
               "repeat's general case no longer combines repeat_exact(min) with at_most(max - min)", site=rp.where())
     al = ctx.body(GB + "::at_least")
